@@ -379,11 +379,9 @@ fn payable_function(nodes: &[Node], x: &mut Expect) {
     let cs = contracts(nodes);
     for (_, f) in member_functions(&cs) {
         if f.body.is_some() && fn_public_or_external(f) && !fn_payable(f) {
-            // constructors, receive, fallback: unspecified by section 8 (may only)
-            x.may(st(&f.loc));
-            if f.ty == pt::FunctionTy::Function {
-                x.both(st(&f.loc));
-            }
+            // "a public/external function with a body that is not payable": constructors declared public, receive and
+            // fallback are functions of the contract too
+            x.both(st(&f.loc));
         }
     }
 }
@@ -552,12 +550,39 @@ pub fn pinned_version(s: &str) -> Option<(u64, u64, u64)> {
     Some((v[0], v[1], v[2]))
 }
 
+/// a pragma value with its `/* .. */` and `// ..` comments removed (hand-written scanner, independent of the regexes in utils.rs)
+pub fn without_comments(t: &str) -> String {
+    let b: Vec<char> = t.chars().collect();
+    let mut out = String::new();
+    let mut i = 0;
+    while i < b.len() {
+        if b[i] == '/' && i + 1 < b.len() && b[i + 1] == '*' {
+            let mut j = i + 2;
+            while j + 1 < b.len() && !(b[j] == '*' && b[j + 1] == '/') {
+                j += 1;
+            }
+            i = if j + 1 < b.len() { j + 2 } else { b.len() };
+            out.push(' ');
+        } else if b[i] == '/' && i + 1 < b.len() && b[i + 1] == '/' {
+            while i < b.len() && b[i] != '\n' {
+                i += 1;
+            }
+            out.push(' ');
+        } else {
+            out.push(b[i]);
+            i += 1;
+        }
+    }
+    out
+}
+
 fn floating_pragma(nodes: &[Node], x: &mut Expect) {
     for n in nodes {
         if let Node::SourceUnitPart(pt::SourceUnitPart::PragmaDirective(loc, ident, value)) = n {
-            if value.string.contains('^') {
+            let value_text = without_comments(&value.string);
+            if value_text.contains('^') {
                 x.both(st(loc));
-            } else if ident.name == "solidity" && pinned_version(&value.string).is_none() {
+            } else if ident.name == "solidity" && pinned_version(&value_text).is_none() {
                 // other range spellings (>=, ~, <, ||, -): unspecified
                 x.may(st(loc));
             }
@@ -946,7 +971,8 @@ pub fn version_of(nodes: &[Node]) -> Version {
     if found.len() > 1 {
         return Version::Unclear;
     }
-    let t = found[0].trim();
+    let stripped = without_comments(found[0]);
+    let t = stripped.trim();
     let t = t.trim_start_matches(|c: char| c == '^' || c == '~' || c == '=' || c == '>' || c == '<' || c == 'v' || c.is_whitespace());
     match pinned_version(t) {
         Some((a, b, c)) if a <= i32::MAX as u64 && b <= i32::MAX as u64 && c <= i32::MAX as u64 => Version::One(a, b, c),
